@@ -731,3 +731,361 @@ def A6(ctx):
     if bad:
         raise Inconclusive("A6: %s changes registers outside its contract: %s" % (name, sorted(set(bad))))
     return L.finish()
+
+
+# ---------------------------------------------------------------------------------------------------------------
+# slice drivers with call summaries (A7, A8)
+
+class RefProvider:
+    """callee summaries = the reference terms (sound once A1–A6 hold)"""
+    kind = "REF-SCAN summaries (A1–A6)"
+
+    def OE(self, B512, esc0):
+        m, e = refs.OE([simp(b) for b in bytes_of(B512, 64)], esc0)
+        return simp(m), simp(e)
+
+    def QUOTE(self, B512, oe, inq0):
+        qb, qm, err, inq = refs.QUOTE([simp(b) for b in bytes_of(B512, 64)], oe, inq0)
+        return simp(qb), simp(qm), simp(err), simp(inq)
+
+    def WSST(self, B512):
+        ws, st = refs.WSST([simp(b) for b in bytes_of(B512, 64)])
+        return simp(ws), simp(st)
+
+    def FIN(self, st, ws, qm, qb, pp0):
+        o, p = refs.FIN(st, ws, qm, qb, pp0)
+        return simp(o), simp(p)
+
+    def NL(self, B512, qm):
+        return simp(refs.NL([simp(b) for b in bytes_of(B512, 64)], qm))
+
+    def FLAT(self, mask, index, carried, position):
+        return tuple(simp(x) for x in refs.FLAT_summary(mask, index, carried, position))
+
+
+class UFProvider:
+    """callee summaries = uninterpreted functions shared by both families (sound for A8 once the pairwise
+    equivalence of the subroutines is established; flatten_bits is literally the same code in both)"""
+    kind = "uninterpreted functions shared by both families"
+
+    def __init__(self):
+        b512, b64, bo = z3.BitVecSort(512), z3.BitVecSort(64), z3.BoolSort()
+        F = z3.Function
+        self.f_oe, self.f_esc = F("uf_OE", b512, bo, b64), F("uf_ESC", b512, bo, bo)
+        self.f_qb, self.f_qm = F("uf_QB", b512, b64, bo, b64), F("uf_QM", b512, b64, bo, b64)
+        self.f_err, self.f_inq = F("uf_ERR", b512, b64, bo, b64), F("uf_INQ", b512, b64, bo, bo)
+        self.f_ws, self.f_st = F("uf_WS", b512, b64), F("uf_ST", b512, b64)
+        self.f_fin, self.f_pp = F("uf_FIN", b64, b64, b64, b64, bo, b64), F("uf_PP", b64, b64, b64, b64, bo, bo)
+        self.f_nl = F("uf_NL", b512, b64, b64)
+        self.f_fi, self.f_fc, self.f_fp = [F("uf_FLAT%d" % i, b64, b64, b64, b64, b64) for i in range(3)]
+
+    def OE(self, B, e):
+        return self.f_oe(B, e), self.f_esc(B, e)
+
+    def QUOTE(self, B, oe, i):
+        return self.f_qb(B, oe, i), self.f_qm(B, oe, i), self.f_err(B, oe, i), self.f_inq(B, oe, i)
+
+    def WSST(self, B):
+        return self.f_ws(B), self.f_st(B)
+
+    def FIN(self, st, ws, qm, qb, pp):
+        return self.f_fin(st, ws, qm, qb, pp), self.f_pp(st, ws, qm, qb, pp)
+
+    def NL(self, B, qm):
+        return self.f_nl(B, qm)
+
+    def FLAT(self, m, i, c, p):
+        return self.f_fi(m, i, c, p), self.f_fc(m, i, c, p), self.f_fp(m, i, c, p)
+
+
+def _ptr_load(ex, st, reg, ins):
+    return ex.load(st, Mem(64, Reg(reg), None, 1, 0), ins)
+
+
+def _ptr_store(ex, st, reg, val, ins):
+    ex.store(st, Mem(64, Reg(reg), None, 1, 0), val, ins)
+
+
+def _as_flag(ex, st, v, allones, what, ins):
+    """cell value v must be 0/1 (or 0/~0): returns the Bool, recording the precondition as an obligation"""
+    v = simp(v)
+    one = BV(M64 if allones else 1, 64)
+    if z3.is_app_of(v, z3.Z3_OP_ITE) and z3.is_bv_value(v.arg(1)) and z3.is_bv_value(v.arg(2)):
+        a, b = v.arg(1).as_long(), v.arg(2).as_long()
+        if a == one.as_long() and b == 0:
+            return v.arg(0)
+        if a == 0 and b == one.as_long():
+            return simp(z3.Not(v.arg(0)))
+    if z3.is_bv_value(v) and v.as_long() in (0, one.as_long()):
+        return z3.BoolVal(v.as_long() != 0)
+    ex.oblige(st, "pre", z3.Or(v == 0, v == one), "summary precondition: %s is not 0/%s" % (what, "~0" if allones else "1"), ins)
+    return simp(v != 0)
+
+
+def _block_term(st, fam):
+    if fam == "avx512":
+        return st.regs["zmm8"]
+    return simp(z3.Concat(z3.Extract(255, 0, st.regs["zmm9"]), z3.Extract(255, 0, st.regs["zmm8"])))
+
+
+def make_hooks(fam, P, consts512=None):
+    """call summaries per the register contracts (DESIGN A.2): outputs overwritten with the provider's terms,
+    clobber sets havoc'd"""
+    x5 = fam == "avx512"
+    counter = [0]
+
+    def havoc(st, name):
+        counter[0] += 1
+        for r in H.CONTRACT[name]["clobber"]:
+            w = 512 if r.startswith("zmm") else 64
+            st.regs[r] = z3.BitVec("clob_%s_%s_%d" % (name[2:8], r, counter[0]), w)
+        for f in st.flags:
+            st.flags[f] = None
+
+    def check_consts(ex, st, ins):
+        if x5:
+            for r, v in consts512.items():
+                if not st.regs[r].eq(v):
+                    ex.oblige(st, "pre", st.regs[r] == v, "summary precondition: constant register %s no longer holds its __init value" % r, ins)
+
+    def h_oe(ex, st, ins):
+        name = H.sub_name("__find_odd_backslash_sequences", fam)
+        check_consts(ex, st, ins)
+        B = _block_term(st, fam)
+        e0 = _as_flag(ex, st, _ptr_load(ex, st, "rdx", ins), False, "prev_iter_ends_odd_backslash", ins)
+        m, e1 = P.OE(B, e0)
+        ptr = st.regs["rdx"]
+        havoc(st, name)
+        st.regs["rax"] = m
+        st.regs["rdx"] = ptr
+        _ptr_store(ex, st, "rdx", refs.b2m(e1), ins)
+
+    def h_q(ex, st, ins):
+        name = H.sub_name("__find_quote_mask_and_bits", fam)
+        check_consts(ex, st, ins)
+        B = _block_term(st, fam)
+        oe = st.regs["rdx"]
+        i0 = _as_flag(ex, st, _ptr_load(ex, st, "rcx", ins), True, "prev_iter_inside_quote", ins)
+        qb, qm, err, i1 = P.QUOTE(B, oe, i0)
+        if x5:
+            k4 = st.regs["k4"]
+            havoc(st, name)
+            st.regs["k6"] = qb
+            st.regs["k4"] = simp(k4 | err)
+        else:
+            e_old = _ptr_load(ex, st, "r9", ins)
+            _ptr_store(ex, st, "r8", qb, ins)
+            _ptr_store(ex, st, "r9", simp(e_old | err), ins)
+            havoc(st, name)
+        st.regs["rax"] = qm
+        _ptr_store(ex, st, "rcx", refs.b2all(i1), ins)
+
+    def h_ws(ex, st, ins):
+        name = H.sub_name("__find_whitespace_and_structurals", fam)
+        check_consts(ex, st, ins)
+        ws, s_ = P.WSST(_block_term(st, fam))
+        if x5:
+            havoc(st, name)
+            st.regs["k7"], st.regs["k5"] = ws, s_
+        else:
+            _ptr_store(ex, st, "rdx", ws, ins)
+            _ptr_store(ex, st, "rcx", s_, ins)
+            havoc(st, name)
+
+    def h_fin(ex, st, ins):
+        name = H.sub_name("__finalize_structurals", fam)
+        if x5:
+            s_, ws, qb = st.regs["k5"], st.regs["k7"], st.regs["k6"]
+        else:
+            s_, ws, qb = st.regs["rdi"], st.regs["rsi"], st.regs["rcx"]
+        qm = st.regs["rdx"]
+        p0 = _as_flag(ex, st, _ptr_load(ex, st, "r8", ins), False, "prev_iter_ends_pseudo_pred", ins)
+        out, p1 = P.FIN(s_, ws, qm, qb, p0)
+        havoc(st, name)
+        st.regs["rax"] = out
+        _ptr_store(ex, st, "r8", refs.b2m(p1), ins)
+
+    def h_nl(ex, st, ins):
+        name = H.sub_name("__find_newline_delimiters", fam)
+        check_consts(ex, st, ins)
+        nl = P.NL(_block_term(st, fam), st.regs["rdx"])
+        havoc(st, name)
+        st.regs["rbx"] = nl
+
+    def h_flat(ex, st, ins):
+        name = "__flatten_bits_incremental"
+        mask, idx, car, pos, base = st.regs["rax"], st.regs["rbx"], st.regs["rdx"], st.regs["r10"], st.regs["rdi"]
+        st.events.append(("flat", base, mask, idx, car, pos))
+        ex.oblige(st, "pre", z3.ULE(idx, h_flat.max_index), "A6 precondition: index <= %d at the flatten_bits call" % h_flat.max_index, ins)
+        i1, c1, p1 = P.FLAT(mask, idx, car, pos)
+        havoc(st, name)
+        st.regs["rbx"], st.regs["rdx"], st.regs["r10"] = i1, c1, p1
+
+    h_flat.max_index = 1536 - 64
+    hooks = {H.sub_name("__find_odd_backslash_sequences", fam): h_oe,
+             H.sub_name("__find_quote_mask_and_bits", fam): h_q,
+             H.sub_name("__find_whitespace_and_structurals", fam): h_ws,
+             H.sub_name("__finalize_structurals", fam): h_fin,
+             H.sub_name("__find_newline_delimiters", fam): h_nl,
+             "__flatten_bits_incremental": h_flat}
+    return hooks, h_flat
+
+
+class SliceSyms:
+    """symbolic inputs of one slice-driver run, shared between families / with the reference"""
+
+    def __init__(self, nblocks, r, limit):
+        self.nblocks, self.r, self.limit = nblocks, r, limit
+        self.n = nblocks * 64 + r
+        self.ext = nblocks * 64 + (0 if r == 0 else 32 if r < 32 else 64)
+        self.bytes = [z3.BitVec("m%03d" % i, 8) for i in range(self.ext)]
+        self.esc0, self.inq0, self.pp0 = z3.Bool("esc0"), z3.Bool("inq0"), z3.Bool("pp0")
+        self.E, self.i0, self.c0, self.p0 = z3.BitVec("error_mask0", 64), z3.BitVec("index0", 64), z3.BitVec("carried0", 64), z3.BitVec("position0", 64)
+        self.nd = z3.BitVec("ndjson", 64)
+        self.pre = [z3.ULT(self.i0, limit)]
+
+    def model_request(self, m, fam):
+        g = lambda t: mval(m, t)
+        data = bytes(g(b) for b in self.bytes) + b"\xAA" * (192 - self.ext)
+        return {"op": "slice", "fam": fam, "buf": data,
+                "a": [self.n, g(self.esc0), M64 if g(self.inq0) else 0, g(self.E), g(self.pp0), g(self.i0), g(self.c0), g(self.p0), g(self.nd)]}
+
+
+def run_slice(L, fam, S, P):
+    """executes the real slice driver of family `fam` with call summaries; returns final states"""
+    ex, prog = L.ex, L.prog
+    x5 = fam == "avx512"
+    st = fresh_state()
+    consts = None
+    if x5:
+        # the constants the driver's own __init calls will establish (they are executed for real below as well)
+        tmp = H.run_inits(ex, fresh_state())
+        consts = {r: tmp.regs[r] for r in H.CONST512}
+    hooks, hflat = make_hooks(fam, P, consts)
+    ex.hooks = hooks
+    buf = st.add_region("buf", S.ext, writable=False, default="none", data=S.bytes)
+    c = lambda n, v: BV(st.cell(n, v), 64)
+    esc, piq, em, pp = c("esc", refs.b2m(S.esc0)), c("piq", refs.b2all(S.inq0)), c("em", S.E), c("pp", refs.b2m(S.pp0))
+    idx, car, pos = c("index", S.i0), c("carried", S.c0), c("position", S.p0)
+    ib = st.add_region("indexes", 1536 * 4, kind="log")
+    lim = BV(S.limit, 64)
+    if x5:
+        set_args(st, [BV(buf.base, 64), BV(S.n, 64), esc, piq, em, pp, BV(ib.base, 64), idx, lim, car, pos, S.nd])
+        name, res = "_find_structural_bits_in_slice_avx512", 12
+    else:
+        qb, ws, sin = c("qb", z3.BitVec("qb_init", 64)), c("ws", z3.BitVec("ws_init", 64)), c("st_in", z3.BitVec("st_init", 64))
+        set_args(st, [BV(buf.base, 64), BV(S.n, 64), esc, piq, qb, em, ws, sin, pp, BV(ib.base, 64), idx, lim, car, pos, S.nd])
+        name, res = "_find_structural_bits_in_slice", 15
+    ex.assumptions = list(S.pre)
+    ex.loop_bound = S.nblocks + 2
+    st.pc = prog.entry(name)
+    fins = ex.run(st)
+    ex.assumptions = []
+    ex.hooks = {}
+    for f in fins:
+        if f.exit != "ret":
+            raise Inconclusive("%s: path did not return" % name)
+        f.out = {"processed": get_result(f, res), "esc": f.read_cell("esc"), "inq": f.read_cell("piq"), "error_mask": f.read_cell("em"),
+                 "pp": f.read_cell("pp"), "index": f.read_cell("index"), "carried": f.read_cell("carried"), "position": f.read_cell("position")}
+        stack = f.region("stack")
+        top = f.entry_rsp - stack.base
+        nargs = res
+        if any(o >= top and not (top + 8 + 8 * nargs <= o < top + 16 + 8 * nargs) for o in stack.written):
+            raise Inconclusive("%s writes into its caller's frame outside its result slot" % name)
+    return fins
+
+
+def ref_slice_chain(S):
+    """reference composition over the blocks of the slice: list of per-block dicts with the state *after* the block,
+    the flatten event expected for it and the early-exit condition"""
+    esc, inq, pp, em = S.esc0, S.inq0, S.pp0, S.E
+    idx, car, pos = S.i0, S.c0, S.p0
+    nd = S.nd != 0
+    out = []
+    nb = S.nblocks + (1 if S.r else 0)
+    for k in range(nb):
+        if k < S.nblocks:
+            Bk = S.bytes[64 * k:64 * k + 64]
+            processed = 64 * (k + 1)
+        else:
+            Bk = S.bytes[64 * k:64 * k + S.r] + [BV(0x20, 8)] * (64 - S.r)
+            processed = S.n
+        oe, esc = refs.OE(Bk, esc)
+        qb, qm, err, inq = refs.QUOTE(Bk, oe, inq)
+        ws, st_ = refs.WSST(Bk)
+        o, pp = refs.FIN(st_, ws, qm, qb, pp)
+        o = z3.If(nd, o | refs.NL(Bk, qm), o)
+        em = em | err
+        ev = (o, idx, car, pos)
+        idx, car, pos = refs.FLAT_summary(o, idx, car, pos)
+        out.append({"event": ev, "esc": refs.b2m(esc), "inq": refs.b2all(inq), "pp": refs.b2m(pp), "error_mask": em,
+                    "index": idx, "carried": car, "position": pos, "processed": BV(processed, 64), "exit": idx >= BV(S.limit, 64)})
+    return out
+
+
+def tails_for(ctx):
+    return [0, 1, 31, 32, 33, 63] if ctx.tier == "quick" else list(range(64))
+
+
+def A7(ctx, family, cases=None):
+    """slice driver (real code) with A1–A6 summaries == reference composition, for blocks in {0,1,2} x tails"""
+    INDEX_SIZE, LIMIT = go_consts()
+    cases = cases or [(nb, r) for nb in (0, 1, 2) for r in tails_for(ctx)]
+    L = LemmaRun(ctx, "A7(%s)" % family, bound="blocks in {0,1,2} x tail lengths %s; any carry-in, any index < %d; bytes fully symbolic"
+                 % (sorted(set(r for _, r in cases)), LIMIT))
+    ctx.assume("A7: callees replaced by their A1–A6 reference summaries with clobber sets havoc'd (DESIGN §3.1 cut points)")
+    ctx.assume("A7: *index < indexSizeWithSafetyBuffer on entry (findStructuralIndices passes 0 or 1)")
+    ctx.stubs.add("A7: CALL __find_* / __flatten_bits_incremental = verified summaries (A1–A6)")
+    P = RefProvider()
+    for nb, r in cases:
+        S = SliceSyms(nb, r, LIMIT)
+        fins = run_slice(L, family, S, P)
+        chain = ref_slice_chain(S)
+        total = len(chain)
+        for f in fins:
+            L.paths += 1
+            m = len(f.events)
+            site = "b%d.r%d.calls%d" % (nb, r, m)
+            L.reach(f, site, S.pre)
+            claims = []
+            if m == 0:
+                claims.append(z3.BoolVal(total == 0))
+                exp = {"processed": BV(0, 64), "esc": refs.b2m(S.esc0), "inq": refs.b2all(S.inq0), "pp": refs.b2m(S.pp0),
+                       "error_mask": S.E, "index": S.i0, "carried": S.c0, "position": S.p0}
+            else:
+                if m > total:
+                    claims.append(z3.BoolVal(False))
+                    exp = {}
+                else:
+                    exp = chain[m - 1]
+                    for j in range(m):
+                        _, base, mask, idx, car, pos = f.events[j]
+                        e = chain[j]["event"]
+                        claims += [mask == e[0], idx == e[1], car == e[2], pos == e[3], base == BV(f.region("indexes").base, 64)]
+                    for j in range(m - 1):
+                        claims.append(z3.Not(chain[j]["exit"]))
+                    if m < total:
+                        claims.append(chain[m - 1]["exit"])
+            for k, v in f.out.items():
+                if k in exp:
+                    claims.append(v == exp[k])
+            for c in claims:
+                mdl = L.refute(f, c, S.pre)
+                if mdl is not None:
+                    q = S.model_request(mdl, family)
+                    L.violation("slice driver (%d blocks + tail %d): result differs from the reference composition" % (nb, r),
+                                {"request": _jsonable(q)}, lambda w: replay_vs_ref(q, limit=LIMIT))
+                    return L.finish()
+            o, mdl = L.bounds(f, S.pre)
+            if o is not None:
+                q = S.model_request(mdl, family)
+                if o.kind == "bounds":
+                    # an out-of-bounds access cannot be observed by a functional replay: report with the witness request
+                    ctx.sample({"lemma": L.name, "bounds_violation": o.what, "request": _jsonable(q)})
+                    L.verdict = "sat"
+                    ctx.report_violation("%s: memory-safety obligation fails (%d blocks + tail %d): %s (not replayable as a functional "
+                                         "difference; the access is outside the extent the Go callers guarantee)" % (L.name, nb, r, o.what),
+                                         {"request": _jsonable(q)})
+                    return L.finish()
+                raise Inconclusive("%s: summary precondition fails: %s" % (L.name, o.what))
+    return L.finish()
